@@ -62,7 +62,7 @@ impl Property for C06 {
         let mut labelled_cond_region = false;
         visit_stmts(&body, 0, &mut |s, _| if s.diff.is_some() && matches!(s.kind, Stmt::While { .. } | Stmt::If { .. }) { labelled_cond_region = true; });
         let mut has_break = false;
-        visit_stmts(&body, 0, &mut |s, _| if matches!(s.kind, Stmt::Break) { has_break = true; });
+        visit_stmts(&body, 0, &mut |s, _| if matches!(s.kind, Stmt::Break) || matches!(&s.kind, Stmt::CondGoto { label, .. } if label == COND_BREAK) { has_break = true; });
         json!({"spec": spec.to_json(), "text": text, "valuations": valuations_to_json(&vals),
                "depth": max_depth(&body), "time_label_in_block": has_time_label_in_block(&body), "loop": has_loop(&body), "break": has_break, "labelled_cond_region": labelled_cond_region})
     }
